@@ -9,7 +9,7 @@
    - payloads are reduced to a tag, a flight id, the identity of the field sets and a size; the contents of the other
      fields are C03's subject. *)
 From Coq Require Import ZArith List Bool.
-From AV Require Import model.Store_Model proofs.Store_Proofs proofs.Store_Refine
+From AV Require Import model.Store_Model proofs.Store_Proofs proofs.Store_IdWidth proofs.Store_Refine
                        proofs.Store_MergeProofs proofs.Store_MergedReads proofs.Store_Corollaries.
 Import ListNotations.
 
@@ -92,3 +92,30 @@ Example C08_nonvacuous :
   nth 21 (snd (spec_run (abs empty_world) hist_demo)) OUnit = ONone /\
   nth 28 (snd (spec_run (abs empty_world) hist_demo)) OUnit = OItem 8.
 Proof. split; [exact hist_demo_ok|]. rewrite hist_demo_outputs. repeat split. Qed.
+
+(* Identifier width.  The model carries identifiers as unbounded Z; the files hold signed 64-bit integers and the
+   index is built through numpy buffers.  [wrapw w x] is what a w-bit two's-complement buffer keeps of x.  With 64-bit
+   buffers the index table and every lookup (hit and miss) are those of the unbounded model for EVERY identifier of the
+   int64 range, so the other C08 theorems speak about the stored identifiers, not about an idealisation of them. *)
+Theorem C08_lookup_exact_on_whole_int64_range : forall l x idx, ids_in_int64 l -> NoDup (ids_of l) ->
+  mk_table (map (narrow_item 64) l) = mk_table l /\
+  (table_lookup x (mk_table (map (narrow_item 64) l)) = Some idx <->
+   exists it, nth_error l idx = Some it /\ fid it = Some x) /\
+  (table_lookup x (mk_table (map (narrow_item 64) l)) = None <-> ~ In x (ids_of l)).
+Proof. exact lookup_exact_on_int64. Qed.
+Print Assumptions C08_lookup_exact_on_whole_int64_range.
+
+Example C08_int64_nonvacuous : ids_in_int64 big_items /\ NoDup (ids_of big_items).
+Proof. exact big_items_ok. Qed.
+
+(* ... and with 32-bit buffers it would not be: a date-prefixed key and 2^32 + 7 are both lost, and 2^32 + 7 collides
+   with 7 (the narrowed store is no longer "fully identified with distinct identifiers").  Formal content of
+   seeded/C09-11; the correspondence runs identifiers beyond 2^31, 2^32 and 2^53 in every history. *)
+Theorem C08_32bit_index_buffer_refuted :
+  table_lookup 20260930000123 (mk_table big_items) = Some 0%nat /\
+  table_lookup 20260930000123 (mk_table (map (narrow_item 32) big_items)) = None /\
+  table_lookup 4294967303 (mk_table big_items) = Some 2%nat /\
+  table_lookup 4294967303 (mk_table (map (narrow_item 32) big_items)) = None /\
+  ~ NoDup (ids_of (map (narrow_item 32) big_items)).
+Proof. exact narrow32_loses_identifiers. Qed.
+Print Assumptions C08_32bit_index_buffer_refuted.
